@@ -326,6 +326,7 @@ class C04(Prop):
 
     # ------------------------------------------------------------------ implementation / model / oracle
     def run_impl(self, case):
+        ic.repeat_alarm(self.case_timeout)
         if case["kind"] == "sims":
             return {"a": run_sim(case, 0), "b": run_sim(case, 1)}
         # hash probes: run A only and few (the hash arithmetic is C03's business; here the first hashes matter)
